@@ -865,6 +865,24 @@ func genPerpClosePositions(g *G) *Op {
 			msg.TakeProfit = append(msg.TakeProfit, req)
 		}
 	}
+	// the same request several times over (in its list, or across lists)
+	if g.Int("cpdup", 0, 3) == 0 {
+		k := 1 + g.Int("cpdupn", 1, 4)
+		switch {
+		case len(msg.Liquidate) > 0:
+			for i := 0; i < k; i++ {
+				msg.Liquidate = append(msg.Liquidate, msg.Liquidate[0])
+			}
+		case len(msg.StopLoss) > 0:
+			for i := 0; i < k; i++ {
+				msg.StopLoss = append(msg.StopLoss, msg.StopLoss[0])
+			}
+		case len(msg.TakeProfit) > 0:
+			for i := 0; i < k; i++ {
+				msg.TakeProfit = append(msg.TakeProfit, msg.TakeProfit[0])
+			}
+		}
+	}
 	return &Op{Signer: g.W.Bot, Kind: "perpetual.close_positions", Msg: msg}
 }
 
@@ -994,6 +1012,13 @@ func genCommitClaimed(g *G) *Op {
 func genUncommit(g *G) *Op {
 	u := g.User()
 	d := []string{ptypes.Eden, ptypes.EdenB}[g.Pick("udenom", 2)]
+	if g.Int("uncommitodd", 0, 5) == 0 {
+		odd := []string{sstypes.GetShareDenom()}
+		for _, p := range g.S.Pools {
+			odd = append(odd, ammtypes.GetPoolShareDenom(p.PoolId))
+		}
+		d = odd[g.Pick("uncommitodddenom", len(odd))]
+	}
 	have := g.S.CommittedOf(u.Addr.String(), d)
 	amt := g.Amount("uncommit", have)
 	if g.Int("uncommitall", 0, 2) == 0 && have.IsPositive() {
@@ -1071,6 +1096,15 @@ func genStake(g *G) *Op {
 func genUnstake(g *G) *Op {
 	u := g.User()
 	asset := []string{ptypes.Elys, ptypes.Eden, ptypes.EdenB}[g.Pick("unstakeasset", 3)]
+	if g.Int("unstakeodd", 0, 5) == 0 {
+		// whatever else the account has committed (pool shares, vault shares) or holds: "unstake" is for the three
+		// staking assets only
+		odd := []string{sstypes.GetShareDenom(), ptypes.BaseCurrency}
+		for _, p := range g.S.Pools {
+			odd = append(odd, ammtypes.GetPoolShareDenom(p.PoolId))
+		}
+		asset = odd[g.Pick("unstakeoddasset", len(odd))]
+	}
 	var amt sdkmath.Int
 	if asset == ptypes.Elys {
 		// sized by what the account really has delegated (partial unstakes in several blocks are the
